@@ -1185,16 +1185,20 @@ int decode_and_compare(const char *path, const model_t *m, const char *prop, con
     }
     /* user data: first chunk is the INVALID-type sentinel written at open */
     {
-        size_t nu = d.user.n ? d.user.n - 1 : 0;
+        /* later chunks of that type are placeholders a caller asked for: they carry no item */
+        size_t nu = 0;
+        size_t *items = malloc((d.user.n + 1) * sizeof(size_t));
+        for (size_t i = 1; i < d.user.n; ++i) if ((d.ch[d.user.idx[i]].meta >> 12) != JLS_STORAGE_TYPE_INVALID) items[nu++] = d.user.idx[i];
         if (nu != m->nuser) { snprintf(key, sizeof(key), "content|user-count|%s", file_kind); v_violation(prop, key, NULL, "%zu user-data chunks on disk, %zu written", nu, m->nuser); bad++; }
         else for (size_t i = 0; i < nu; ++i) {
-            const jd_chunk_t *c = &d.ch[d.user.idx[i + 1]];
+            const jd_chunk_t *c = &d.ch[items[i]];
             const op_t *op = &m->p->ops[m->user[i]];
             uint8_t *b = gen_payload(op->stype, op->dsize, op->dseed);
             int same = (c->meta & 0x0fff) == (op->meta & 0x0fff) && (c->meta >> 12) == op->stype && c->plen == op->dsize && (!c->plen || !memcmp(c->payload, b, c->plen));
             free(b);
             if (!same) { snprintf(key, sizeof(key), "content|user|%s", file_kind); v_violation(prop, key, NULL, "user-data item %zu on disk differs", i); bad++; break; }
         }
+        free(items);
     }
     jd_free(&d);
     return bad;
